@@ -107,6 +107,8 @@ type Env struct {
 	P  *Elem
 	PN *Nested
 
+	Z Zoo
+
 	Any interface{} `json:"-"`
 
 	Inc func(int) int                     `json:"-"`
@@ -279,6 +281,7 @@ func (s *EnvSpec) AnyTy() *Ty {
 func (s *EnvSpec) Build(log *[]string) Env {
 	e := deepCopy(reflect.ValueOf(s.Env)).Interface().(Env)
 	e.Any = s.AnyV.Value()
+	e.Z.Tw = Elem{V: e.Z.TwV, Name: "tw"}
 	e.log = log
 	e.Inc = func(i int) int { return i + 1 }
 	e.Cat = func(a, b string) string { return a + "|" + b }
@@ -611,6 +614,7 @@ func GenEnvSpec(t *rapid.T, anyTy string, maxLen int) *EnvSpec {
 		anyTy = rapid.SampledFrom(anyTys).Draw(t, "anyTy")
 	}
 	s.AnyV = GenAnyVal(t, anyTy)
+	e.Z = genZoo(t)
 	return s
 }
 
